@@ -218,7 +218,7 @@ PROPS["C05"] = dict(
     run_files=["Run/C05Run.v", "Mutants/ReplicationMutants.v"],
     engines=[dict(cmd=["c05"], corr="Model.Replication.follows (the proposals a worker may make: Model.Replication.step/propose) <-> the follower table's own raft log produced by replication.worker against regattaserver.LogServer/SnapshotServer", timeout=1800),
              dict(cmd=["c05multi"], summary="c05multi", corr="Model.Replication guard (a poll acts on the follower's current leader index) <-> replication.worker.tableState on a three-node follower cluster with a lagging replica taking over the lease", timeout=900)],
-    level_text="Theorems, generic in the table state machine (so non-idempotent transactions and range deletes are covered): for every interleaving of leader writes, leader log compactions, worker polls (any number of entries delivered, any chunking into proposals) and snapshot recoveries the follower's content equals the leader's content as of the recorded leader index - every leader entry exactly once, in leader order; the index never moves backwards and what it denotes never changes; a served poll makes progress, a complete stream or a recovery reaches the leader's latest state; a follower log accepted by [follows] is explained by the model. Full system in one process (real leader and follower storage.Engine, real gRPC replication services with the cached log reader, real replication.Manager/worker): random histories while replicating, compacted leader log (snapshot recovery), small message limit, follower engine restart; every 2 ms sample (leader index, content) of the follower is compared with a reference replay of the leader's raft log at exactly that index; the follower's own raft log is validated against the model in Coq and, on the Go side, against 'each leader command once, in leader order'; variants incl. a second reader that filled the leader's log cache ahead of the follower; the table set (reconcileTables: theorem 'after a reconciliation the follower has exactly the leader's tables', compared at every settling point) is followed down to no table at all.",
+    level_text="Theorems, generic in the table state machine (so non-idempotent transactions and range deletes are covered): for every interleaving of leader writes, leader log compactions, worker polls (any number of entries delivered, any chunking into proposals) and snapshot recoveries the follower's content equals the leader's content as of the recorded leader index - every leader entry exactly once, in leader order; the index never moves backwards and what it denotes never changes; a served poll makes progress, a complete stream or a recovery reaches the leader's latest state; a follower log accepted by [follows] is explained by the model. Full system in one process (real leader and follower storage.Engine, real gRPC replication services with the cached log reader, real replication.Manager/worker): random histories while replicating, compacted leader log (snapshot recovery), small message limit, follower engine restart; every 2 ms sample (leader index, content) of the follower is compared with a reference replay of the leader's raft log at exactly that index; the follower's own raft log is validated against the model in Coq and, on the Go side, against 'each leader command once, in leader order'; variants incl. a second reader that filled the leader's log cache ahead of the follower; the table set (reconcileTables: theorem 'after a reconciliation the follower has exactly the leader's tables', compared at every settling point) is followed down to no table at all. One poll end to end (Model/Pipeline.v, theorem C05_poll_is_the_stream_consumed): the stream of C06 - over any reader service, cached or not, whose single answers are exact - consumed by worker.do/proposeBatch (messages cut into proposals anywhere, each tagged with the leader index the stream attached to its last command) applies exactly the leader's entries r+1..applied once and in order and records leader index applied: it IS the abstract poll of Model/Replication.v.",
     level_note="PARTIAL: (1) the theorem assumes that a poll acts on the follower's CURRENT leader index ([guarded]). For a node whose replica lags and that takes over the lease this was violated by the original code (stale local read; reproduced on a three-node follower cluster, repaired by a linearizable read, KNOWN_FINDINGS F-C05-stale-leader-index; the scenario is part of every run). What remains assumed and is neither proved nor exercised: a proposal that timed out at the worker is not committed later (after the next poll read the index) - the code has no fence against that. (2) Convergence of the SET of tables: creation and deletion are exercised; delete-and-recreate under the same name within one reconcile interval is an open finding (the metadata carries names only). (3) What one Replicate stream carries is C06's theorem, the snapshot transport C07's, the atomic SEQUENCE C03's; here they are composed, not re-proved. Timing (poll/lease/reconcile intervals) is real time: liveness is checked with a 40 s bound.",
     technique="Coq proof (inductive invariant over an interleaving semantics of leader, compaction, worker polls with arbitrary chunking and snapshot recovery, generic in the state machine; trace-validation lemma) + full-system differential run with reference replay of the leader log and Coq validation of the follower's raft log",
     trusted=["Model/Replication.v hand-written model of worker.do/proposeBatch/recover and of what LogServer ships (C06)", "reference replay through a real fsm.FSM as the oracle for 'leader content at index i'"],
